@@ -329,6 +329,9 @@ fn c07(src: &str) -> R {
         let txt = &src[k.b0..k.b1];
         if matches!(k.ty, T::KwmStr | T::KwmNrStr) {
             in_str_call = 1;
+        } else if in_str_call > 0 && (k.ty == T::MacroIdentifier || format!("{:?}", k.ty).starts_with("Kwm")) {
+            // a nested macro call or statement: its arguments are not %str text; stop checking (conservative)
+            in_str_call = 0;
         }
         if let Payload::StringLiteral(a, b) = k.payload {
             if a != expect_start || b < a || b as usize > lit.len() || !lit.is_char_boundary(a as usize) || !lit.is_char_boundary(b as usize) {
